@@ -125,7 +125,7 @@ fn stage(i: &Input, c: &mut Case) -> Result<(), String> {
     let to = TreeOpts { max_nodes: if huge { 12 } else { 40 }, pay: PayOpts { big_left: if huge { 2 } else { 1 }, huge, max_small: 30 }, deep: t.chance(1, 2), ..TreeOpts::default() };
     let mut d = gen_doc(&mut t, SpecOpts::default(), to, EncOpts { widths: true, unknown: true, full: true, noncanonical: false });
     if huge {
-        let n = *t.pick(&[65_535usize, 65_536, 65_537, 70_000, 131_072]);
+        let n = *t.pick(&[65_535usize, 65_536, 65_537, 70_000, 131_072, 1 << 20, (1 << 20) + 5]);
         enlarge_one_leaf(&mut t, &mut d.forest, n);
     }
     full_in_full(&mut t, &mut d.forest);
@@ -149,6 +149,8 @@ fn stage(i: &Input, c: &mut Case) -> Result<(), String> {
     c.key(&(d.spec.table().elems.clone(), &d.forest, &sched));
     c.sample_with(|| format!("{} | dest schedule {:?}", describe_doc(&d), sched));
 
+    // (drawn last) a destination whose write_vectored really gathers
+    let gather = t.chance(1, 2);
     let ops = forest_ops(&d.forest);
     with_spec!(d.spec, T => {
         let out = write_ops::<T>(&ops).map_err(|(k, e)| format!("writer rejected call #{} {:?} of a conformant sequence: {:?}\n  ops: {}", k, ops.get(k).map(|o| o.short()), e, render_ops(&ops)))?;
@@ -199,17 +201,19 @@ fn stage(i: &Input, c: &mut Case) -> Result<(), String> {
             return Err(format!("options changed more than size fields: element {} is {:x?} with options and {:x?} with defaults\n  ops: {}", k, a.get(k), b.get(k), render_ops(&ops)));
         }
         // (4) short writes
-        let mut wr = Wr::<T>::new(RecDest::with_sched(sched.clone()));
+        let mut wr = Wr::<T>::new(RecDest { gather, ..RecDest::with_sched(sched.clone()) });
         for (k, op) in ops.iter().enumerate() {
             wr.apply(op).map_err(|e| format!("with short-write schedule {:?}: call #{} failed: {:?}", sched, k, e))?;
         }
         let partial = wr.w.get_ref().partial_writes;
+        c.label_if(gather, "gathering_destination");
+        c.label_if(gather && wr.w.get_ref().vectored_calls > 0, "write_vectored_called_on_gathering_destination");
         let got = wr.finish().map_err(|e| format!("with short-write schedule {:?}: flush failed: {:?}", sched, e))?;
         c.checks += 1;
         c.label_if(partial >= 2, "two_or_more_partial_writes");
         if got != out {
             let k = got.iter().zip(out.iter()).take_while(|(a, b)| a == b).count();
-            return Err(format!("destination with short-write schedule {:?} received different bytes (first difference at {}, {} vs {} bytes)\n  ops: {}", sched, k, got.len(), out.len(), render_ops(&ops)));
+            return Err(format!("destination (write_vectored gathers: {}) with short-write schedule {:?} received different bytes (first difference at {}, {} vs {} bytes)\n  ops: {}", gather, sched, k, got.len(), out.len(), render_ops(&ops)));
         }
         c.nontrivial = full_with_master || non_minimal || partial >= 2;
         Ok(())
